@@ -1,8 +1,9 @@
 (* C04 property theorems.  Nothing but statements closed by `exact`, statement pins and
    Print Assumptions.  bs ranges over ALL bit lists, p/k/i over all naturals. *)
-From Coq Require Import List Arith NArith Lia Bool.
+From Coq Require Import List Arith NArith ZArith Lia Bool.
 From ZV.C04 Require Import Spec Model ModelIL ProofsRank ProofsFew ProofsSelect ProofsSelect0 ProofsIL.
-From ZV.C04 Require Import ModelGen ModelILSel ModelRun ProofsGen ProofsILSel.
+From ZV.C04 Require Import ModelGen ModelILSel ModelSE256 ModelSimple ModelFew2 ModelBV ModelRun.
+From ZV.C04 Require Import ProofsGen ProofsILSel ProofsSE256 ProofsSE256Sel0 ProofsSimple ProofsFew2 ProofsBV.
 Import ListNotations.
 
 (* --- spec layer: the definition itself has the laws the property names --- *)
@@ -169,3 +170,242 @@ Example il256_select_nonvacuous :
   ils_select0 (ils_build bs true 64) 212 = Some 512 /\ ils_select0 (ils_build bs true 64) 213 = None /\
   il_cache (ils_build bs true 64) = Some [63; 127; 191; 255; 532; 596; 599]%N.
 Proof. vm_compute. repeat split; reflexivity. Qed.
+
+(* --- RankSelectSE256 as written (separated.rs: u32 lev1 + four u8 lev2 per 256-bit block, sentinel, optional
+       select caches, upper-bound binary search, descending scan over lev2, in-word select), every bit list, both
+       select-cache settings --- *)
+Theorem se256_rank1_correct : forall bs sp0 sp1 p,
+  p <= length bs -> se256_rank1 (se256_build bs sp0 sp1) p = Some (rank1 bs p).
+Proof. exact se256_rank1_correct_proof. Qed.
+Check se256_rank1_correct : forall bs sp0 sp1 p,
+  p <= length bs -> se256_rank1 (se256_build bs sp0 sp1) p = Some (rank1 bs p).
+Print Assumptions se256_rank1_correct.
+
+Theorem se256_rank0_correct : forall bs sp0 sp1 p,
+  p <= length bs -> se256_rank0 (se256_build bs sp0 sp1) p = Some (rank0 bs p).
+Proof. exact se256_rank0_correct_proof. Qed.
+Check se256_rank0_correct : forall bs sp0 sp1 p,
+  p <= length bs -> se256_rank0 (se256_build bs sp0 sp1) p = Some (rank0 bs p).
+Print Assumptions se256_rank0_correct.
+
+Theorem se256_rank1_refuses_past_end : forall bs sp0 sp1 p,
+  length bs < p -> se256_rank1 (se256_build bs sp0 sp1) p = None.
+Proof. exact se256_rank1_refuses_proof. Qed.
+Check se256_rank1_refuses_past_end : forall bs sp0 sp1 p,
+  length bs < p -> se256_rank1 (se256_build bs sp0 sp1) p = None.
+Print Assumptions se256_rank1_refuses_past_end.
+
+Theorem se256_get_correct : forall bs sp0 sp1 i,
+  se256_get (se256_build bs sp0 sp1) i = if length bs <=? i then None else Some (nth i bs false).
+Proof. exact se256_get_correct_proof. Qed.
+Check se256_get_correct : forall bs sp0 sp1 i,
+  se256_get (se256_build bs sp0 sp1) i = if length bs <=? i then None else Some (nth i bs false).
+Print Assumptions se256_get_correct.
+
+Theorem se256_count_ones : forall bs sp0 sp1,
+  mr1_256 (se256_build bs sp0 sp1) = count1 bs /\ size256 (se256_build bs sp0 sp1) = length bs.
+Proof. exact se256_count_ones_proof. Qed.
+Check se256_count_ones : forall bs sp0 sp1,
+  mr1_256 (se256_build bs sp0 sp1) = count1 bs /\ size256 (se256_build bs sp0 sp1) = length bs.
+Print Assumptions se256_count_ones.
+
+Theorem se256_select1_correct : forall bs sp0 sp1 k,
+  se256_select1 (se256_build bs sp0 sp1) k = select1 bs k.
+Proof. exact se256_select1_correct_proof. Qed.
+Check se256_select1_correct : forall bs sp0 sp1 k,
+  se256_select1 (se256_build bs sp0 sp1) k = select1 bs k.
+Print Assumptions se256_select1_correct.
+
+Theorem se256_select0_correct : forall bs sp0 sp1 k,
+  se256_select0 (se256_build bs sp0 sp1) k = select0 bs k.
+Proof. exact se256_select0_correct_proof. Qed.
+Check se256_select0_correct : forall bs sp0 sp1 k,
+  se256_select0 (se256_build bs sp0 sp1) k = select0 bs k.
+Print Assumptions se256_select0_correct.
+
+Example se256_nonvacuous :
+  let bs := repeat true 300 ++ repeat false 212 ++ repeat true 88 in
+  se256_rank1 (se256_build bs true true) 600 = Some 388 /\ se256_rank1 (se256_build bs true true) 512 = Some 300 /\
+  se256_rank1 (se256_build bs true true) 601 = None /\
+  se256_select1 (se256_build bs true true) 300 = Some 512 /\ se256_select1 (se256_build bs false false) 388 = None /\
+  se256_select0 (se256_build bs true false) 211 = Some 511 /\ se256_select0 (se256_build bs true true) 212 = None.
+Proof. vm_compute. repeat split; reflexivity. Qed.
+
+(* --- RankSelectSimple as written (simple.rs: one u32 per 256-bit block, popcounts of the block's words, binary
+       search + ascending scan with a running remainder, clamped zero count of the last word) --- *)
+Theorem simple_rank1_correct : forall bs p,
+  p <= length bs -> simple_rank1 (simple_build bs) p = Some (rank1 bs p).
+Proof. exact simple_rank1_correct_proof. Qed.
+Check simple_rank1_correct : forall bs p,
+  p <= length bs -> simple_rank1 (simple_build bs) p = Some (rank1 bs p).
+Print Assumptions simple_rank1_correct.
+
+Theorem simple_rank0_correct : forall bs p,
+  p <= length bs -> simple_rank0 (simple_build bs) p = Some (rank0 bs p).
+Proof. exact simple_rank0_correct_proof. Qed.
+Check simple_rank0_correct : forall bs p,
+  p <= length bs -> simple_rank0 (simple_build bs) p = Some (rank0 bs p).
+Print Assumptions simple_rank0_correct.
+
+Theorem simple_rank1_refuses_past_end : forall bs p, length bs < p -> simple_rank1 (simple_build bs) p = None.
+Proof. exact simple_rank1_refuses_proof. Qed.
+Check simple_rank1_refuses_past_end : forall bs p, length bs < p -> simple_rank1 (simple_build bs) p = None.
+Print Assumptions simple_rank1_refuses_past_end.
+
+Theorem simple_get_correct : forall bs i,
+  simple_get (simple_build bs) i = if length bs <=? i then None else Some (nth i bs false).
+Proof. exact simple_get_correct_proof. Qed.
+Check simple_get_correct : forall bs i,
+  simple_get (simple_build bs) i = if length bs <=? i then None else Some (nth i bs false).
+Print Assumptions simple_get_correct.
+
+Theorem simple_count_ones : forall bs,
+  sm_mr1 (simple_build bs) = count1 bs /\ sm_size (simple_build bs) = length bs.
+Proof. exact simple_count_ones_proof. Qed.
+Check simple_count_ones : forall bs,
+  sm_mr1 (simple_build bs) = count1 bs /\ sm_size (simple_build bs) = length bs.
+Print Assumptions simple_count_ones.
+
+Theorem simple_select1_correct : forall bs k, simple_select1 (simple_build bs) k = select1 bs k.
+Proof. exact simple_select1_correct_proof. Qed.
+Check simple_select1_correct : forall bs k, simple_select1 (simple_build bs) k = select1 bs k.
+Print Assumptions simple_select1_correct.
+
+Theorem simple_select0_correct : forall bs k, simple_select0 (simple_build bs) k = select0 bs k.
+Proof. exact simple_select0_correct_proof. Qed.
+Check simple_select0_correct : forall bs k, simple_select0 (simple_build bs) k = select0 bs k.
+Print Assumptions simple_select0_correct.
+
+Example simple_nonvacuous :
+  let bs := repeat true 300 ++ repeat false 212 ++ repeat true 88 in
+  simple_rank1 (simple_build bs) 600 = Some 388 /\ simple_rank1 (simple_build bs) 512 = Some 300 /\
+  simple_select1 (simple_build bs) 300 = Some 512 /\ simple_select1 (simple_build bs) 388 = None /\
+  simple_select0 (simple_build bs) 211 = Some 511 /\ simple_select0 (simple_build bs) 212 = None.
+Proof. vm_compute. repeat split; reflexivity. Qed.
+
+(* --- the rest of few.rs: RankSelectFewOne rank0 / select0 / count_ones, RankSelectFewZero (sorted positions of the
+       zeros: rank0 by partition point, rank1 = pos - rank0, select0 by index, select1 by binary search over
+       positions, get, count_ones) --- *)
+Theorem few_rank0_correct : forall bs p,
+  few_rank0 (few_build bs) p = if length bs <? p then None else Some (rank0 bs p).
+Proof. exact few_rank0_correct_proof. Qed.
+Check few_rank0_correct : forall bs p,
+  few_rank0 (few_build bs) p = if length bs <? p then None else Some (rank0 bs p).
+Print Assumptions few_rank0_correct.
+
+Theorem few_select0_correct : forall bs k, few_select0 (few_build bs) k = select0 bs k.
+Proof. exact few_select0_correct_proof. Qed.
+Check few_select0_correct : forall bs k, few_select0 (few_build bs) k = select0 bs k.
+Print Assumptions few_select0_correct.
+
+Theorem fewone_count_ones : forall bs, few_count_ones (few_build bs) = count1 bs /\ fsize (few_build bs) = length bs.
+Proof. exact few_count_ones_proof. Qed.
+Check fewone_count_ones : forall bs, few_count_ones (few_build bs) = count1 bs /\ fsize (few_build bs) = length bs.
+Print Assumptions fewone_count_ones.
+
+Theorem fewzero_rank0_correct : forall bs p,
+  fz_rank0 (fz_build bs) p = if length bs <? p then None else Some (rank0 bs p).
+Proof. exact fz_rank0_correct_proof. Qed.
+Check fewzero_rank0_correct : forall bs p,
+  fz_rank0 (fz_build bs) p = if length bs <? p then None else Some (rank0 bs p).
+Print Assumptions fewzero_rank0_correct.
+
+Theorem fewzero_rank1_correct : forall bs p,
+  fz_rank1 (fz_build bs) p = if length bs <? p then None else Some (rank1 bs p).
+Proof. exact fz_rank1_correct_proof. Qed.
+Check fewzero_rank1_correct : forall bs p,
+  fz_rank1 (fz_build bs) p = if length bs <? p then None else Some (rank1 bs p).
+Print Assumptions fewzero_rank1_correct.
+
+Theorem fewzero_select0_correct : forall bs k, fz_select0 (fz_build bs) k = select0 bs k.
+Proof. exact fz_select0_correct_proof. Qed.
+Check fewzero_select0_correct : forall bs k, fz_select0 (fz_build bs) k = select0 bs k.
+Print Assumptions fewzero_select0_correct.
+
+Theorem fewzero_select1_correct : forall bs k, fz_select1 (fz_build bs) k = select1 bs k.
+Proof. exact fz_select1_correct_proof. Qed.
+Check fewzero_select1_correct : forall bs k, fz_select1 (fz_build bs) k = select1 bs k.
+Print Assumptions fewzero_select1_correct.
+
+Theorem fewzero_get_correct : forall bs i,
+  fz_get (fz_build bs) i = if length bs <=? i then None else Some (nth i bs false).
+Proof. exact fz_get_correct_proof. Qed.
+Check fewzero_get_correct : forall bs i,
+  fz_get (fz_build bs) i = if length bs <=? i then None else Some (nth i bs false).
+Print Assumptions fewzero_get_correct.
+
+Theorem fewzero_count_ones : forall bs, fz_count_ones (fz_build bs) = count1 bs /\ zsize (fz_build bs) = length bs.
+Proof. exact fz_count_ones_proof. Qed.
+Check fewzero_count_ones : forall bs, fz_count_ones (fz_build bs) = count1 bs /\ zsize (fz_build bs) = length bs.
+Print Assumptions fewzero_count_ones.
+
+Example fewzero_nonvacuous :
+  let bs := repeat true 70 ++ [false; true; false] ++ repeat true 60 in
+  fz_rank1 (fz_build bs) 73 = Some 71 /\ fz_select1 (fz_build bs) 71 = Some 73 /\ fz_select1 (fz_build bs) 131 = None /\
+  fz_select0 (fz_build bs) 1 = Some 72 /\ fz_get (fz_build bs) 72 = Some false /\
+  few_select0 (few_build bs) 1 = Some 72 /\ few_select0 (few_build bs) 2 = None.
+Proof. vm_compute. repeat split; reflexivity. Qed.
+
+(* --- BitVector as written (bit_vector.rs): a state machine over (blocks : Vec<u64>, len) with push, pop, set, get,
+       resize, ensure_set1, fast_ensure_set1, insert, clear, count_ones, rank1, rank0, len.  For every operation
+       history the observations equal those of a list of booleans, and the invariant "every storage bit at a position
+       >= len is zero" holds - which is why the structures built from the vector may popcount whole words
+       (bitvector_blocks_are_words). A panic (index out of bounds, debug assertion, subtraction underflow) is the
+       observation -2 of the model; the refinement shows it never occurs. --- *)
+Theorem bitvector_history_refines_list : forall ops,
+  let '(s', obs) := bv_run bv_new ops in
+  let '(l', obs') := ls_run [] ops in
+  obs = obs' /\ bv_abs s' = l' /\ bv_inv s'.
+Proof. exact bitvector_history_refines_list_proof. Qed.
+Check bitvector_history_refines_list : forall ops,
+  let '(s', obs) := bv_run bv_new ops in
+  let '(l', obs') := ls_run [] ops in
+  obs = obs' /\ bv_abs s' = l' /\ bv_inv s'.
+Print Assumptions bitvector_history_refines_list.
+
+Theorem bitvector_with_size_history_refines_list : forall n v ops,
+  exists s0, bv_with_size n v = Some s0 /\
+  let '(s', obs) := bv_run s0 ops in
+  let '(l', obs') := ls_run (repeat v n) ops in
+  obs = obs' /\ bv_abs s' = l' /\ bv_inv s'.
+Proof. exact bitvector_with_size_history_refines_list_proof. Qed.
+Check bitvector_with_size_history_refines_list : forall n v ops,
+  exists s0, bv_with_size n v = Some s0 /\
+  let '(s', obs) := bv_run s0 ops in
+  let '(l', obs') := ls_run (repeat v n) ops in
+  obs = obs' /\ bv_abs s' = l' /\ bv_inv s'.
+Print Assumptions bitvector_with_size_history_refines_list.
+
+Theorem bitvector_step_refines_list : forall s op, bv_inv s ->
+  let '(s', o) := bv_step s op in
+  let '(l', o') := ls_step (bv_abs s) op in
+  bv_inv s' /\ bv_abs s' = l' /\ o = o'.
+Proof. exact bv_step_refines. Qed.
+Check bitvector_step_refines_list : forall s op, bv_inv s ->
+  let '(s', o) := bv_step s op in
+  let '(l', o') := ls_step (bv_abs s) op in
+  bv_inv s' /\ bv_abs s' = l' /\ o = o'.
+Print Assumptions bitvector_step_refines_list.
+
+Theorem bitvector_never_panics : forall s op, bv_inv s -> snd (bv_step s op) <> PANIC.
+Proof. exact bv_step_no_panic. Qed.
+Check bitvector_never_panics : forall s op, bv_inv s -> snd (bv_step s op) <> PANIC.
+Print Assumptions bitvector_never_panics.
+
+(* trailing bits past the end are ignored because they are zero: block j of the storage is the 64-bit window j of
+   the abstract bit list padded with zeros, so a whole-word popcount is the popcount of the window *)
+Theorem bitvector_blocks_are_words : forall s j, bv_inv s ->
+  bits64 (nth j (blocks s) 0%N) = word (bv_abs s) j ++ repeat false (64 - length (word (bv_abs s) j)) /\
+  popcountN (nth j (blocks s) 0%N) = popcount (word (bv_abs s) j).
+Proof. intros s j H. split; [exact (bv_blocks_are_words s j H)|exact (bv_blocks_popcount s j H)]. Qed.
+Check bitvector_blocks_are_words : forall s j, bv_inv s ->
+  bits64 (nth j (blocks s) 0%N) = word (bv_abs s) j ++ repeat false (64 - length (word (bv_abs s) j)) /\
+  popcountN (nth j (blocks s) 0%N) = popcount (word (bv_abs s) j).
+Print Assumptions bitvector_blocks_are_words.
+
+Example bitvector_nonvacuous :
+  let ops := [OResize 63 true; OPush false; OPush true; OPop; ORank1 65; OResize 10 false; OEnsureSet1 130;
+              ORank1 200; ORank0 200; OCountOnes; OLen; OGet 130; OGet 131] in
+  snd (bv_run bv_new ops) = [0; 0; 0; 1; 63; 0; 0; 11; 120; 11; 131; 1; (-1)]%Z /\
+  blocks (fst (bv_run bv_new ops)) = [1023; 0; 4]%N.
+Proof. vm_compute. split; reflexivity. Qed.
